@@ -9,6 +9,7 @@ import (
 	"strings"
 	"sync"
 	"sync/atomic"
+	"time"
 )
 
 // A Stream is one correspondence protocol: self-contained scenario lines ("ops"), executed on the
@@ -18,8 +19,9 @@ type Stream struct {
 	Rule     string
 	Gen      func(r *rand.Rand, tier string, n int, emit func(op string, tags ...string))
 	Exec     func(op string, res *Result) string
-	Serial   bool // scenarios must not run concurrently (memory / timing sensitive)
-	Parallel int  // max workers (0 = NumCPU)
+	Serial   bool          // scenarios must not run concurrently (memory / timing sensitive)
+	Parallel int           // max workers (0 = NumCPU)
+	Watchdog time.Duration // per-scenario limit (0 = 10 min); a scenario that does not return is a hang
 }
 
 type Result struct {
@@ -175,11 +177,40 @@ func runStream(s *Stream, args []string) int {
 }
 
 func safeExec(s *Stream, op string, res *Result) (out string) {
-	defer func() {
-		if r := recover(); r != nil {
-			out = "harness-panic"
-			res.Violation = &Violation{Kind: "input", Site: "harness", Symptom: "panic", What: fmt.Sprint(r)}
-		}
+	limit := s.Watchdog
+	if limit == 0 {
+		limit = 10 * time.Minute
+	}
+	type ret struct {
+		out string
+		res Result
+	}
+	ch := make(chan ret, 1)
+	go func() {
+		var r Result
+		var o string
+		func() {
+			defer func() {
+				if p := recover(); p != nil {
+					o = "harness-panic"
+					r.Violation = &Violation{Kind: "input", Site: "harness", Symptom: "panic", What: fmt.Sprint(p)}
+				}
+			}()
+			o = s.Exec(op, &r)
+		}()
+		ch <- ret{o, r}
 	}()
-	return s.Exec(op, res)
+	select {
+	case r := <-ch:
+		*res = r.res
+		return r.out
+	case <-time.After(limit):
+		buf := make([]byte, 1<<16)
+		buf = buf[:runtime.Stack(buf, true)]
+		res.Violation = &Violation{Kind: "schedule", Site: "harness.watchdog:" + s.Name, Symptom: "hang",
+			What:     fmt.Sprintf("scenario did not return within %v (deadlock / endless wait in the code under test)", limit),
+			Scenario: map[string]any{"stream": s.Name, "op": op, "goroutines": string(buf[:min(len(buf), 8000)])}}
+		res.Abort = true
+		return "hang"
+	}
 }
